@@ -65,13 +65,13 @@ def view (st : St) : String :=
       let cfs := if d.configs.isEmpty then "-" else
         join "+" (d.configs.map (fun c => s!"{c.chain}.{c.path}={addrStr c.value}"))
       s!" n{n}:{d.owner},{d.controller},{d.expireAt},{d.contact},{cfs}"))
-  let own := idxStr "o" st.nA (fun a => s.ownIdx.lookup a) natsOrDash
+  let own := idxStr "o" st.nA (fun a => s.ns.ownIdx.lookup a) natsOrDash
   let hrps := 0 :: ((List.range st.nR).map (· + 1)) ++ [100]
   let cfg := String.join (hrps.map (fun hp =>
     String.join ((List.range st.nA).map (fun a =>
-      let l := s.cfgIdx.lookup ⟨hp, a⟩
+      let l := s.ns.cfgIdx.lookup ⟨hp, a⟩
       if l.isEmpty then "" else s!" x{hp}:{a}:{natsOrDash l}"))))
-  let fb := idxStr "f" st.nA (fun a => s.fbIdx.lookup a) natsOrDash
+  let fb := idxStr "f" st.nA (fun a => s.ns.fbIdx.lookup a) natsOrDash
   let sn := String.join ((List.range st.nN).map (fun n =>
     match AMap.get s.nameSO n with
     | none => ""
@@ -96,14 +96,14 @@ def view (st : St) : String :=
   let il := idxStr "il" st.nL (fun l => s.boAlias.lookup l) boIds
   let rs := String.join ((List.range st.nR).map (fun i =>
     let c := i + 1
-    match AMap.get s.rollapps c with
+    match AMap.get s.al.rollapps c with
     | none => ""
     | some r =>
       let al := aliasesOf s c
       let als := if al.isEmpty then "-" else join "," (al.map toString)
       s!" r{c}:{r.owner},{r.hrp},{als}"))
   let ls := String.join ((List.range st.nL).map (fun l =>
-    match AMap.get s.aliasTo l with
+    match AMap.get s.al.aliasTo l with
     | none => ""
     | some c => s!" l{l}:{c}"))
   head ++ names ++ own ++ cfg ++ fb ++ sn ++ sl ++ s!" bc={s.boCount}" ++ bos ++ ib ++ inn ++ il ++ rs ++ ls
